@@ -36,8 +36,8 @@ namespace occa {
     memoryPoolRing.addRef(memPool);
   }
 
-  void modeMemoryPool_t::removeMemoryPoolRef(memoryPool *memPool) {
-    memoryPoolRing.removeRef(memPool);
+  bool modeMemoryPool_t::removeMemoryPoolRef(memoryPool *memPool) {
+    return memoryPoolRing.removeRef(memPool);
   }
 
   namespace {
@@ -67,13 +67,16 @@ namespace occa {
     reserved = reservedBytes(reservations, alignment);
   }
 
-  void modeMemoryPool_t::removeModeMemoryRef(modeMemory_t *mem) {
+  bool modeMemoryPool_t::removeModeMemoryRef(modeMemory_t *mem) {
     modeMemoryRing.removeRef(mem);
 
     /*Remove this mem from the reservation list*/
     auto pos = reservations.find(mem);
     reservations.erase(pos);
     reserved = reservedBytes(reservations, alignment);
+
+    /*A pool lives as long as its own handles, not its reservations*/
+    return needsFree();
   }
 
   bool modeMemoryPool_t::needsFree() const {
